@@ -115,6 +115,12 @@ SEEDS = {
  "C06f": dict(property="C06", needs="forced shutdown arriving while a worker is on its way out (idle timeout / shrink sentinel / memory-leak recycling: exit announced, released by the manager, process still running its exit handlers): the manager no longer joins it, it is in nobody's books, survives the kill and is never reaped"),
  "C20e": dict(property="C20", needs="a worker killed by a real-time signal (no signal.Signals member): the exit-code name lookup became a dict access under except ValueError, the manager dies composing the diagnostic and the lifecycle leaks workers, feeder thread, fds, semaphores"),
  "C20b": dict(property="C20", needs="kill-type lifecycle + worker with descendants one of which vanishes during the kill: kill_process_tree returns early, the worker is neither killed nor joined (child, fd, semaphore accumulate)"),
+ "C02g": dict(property="C02", needs="pool emptied by idle-timeout exits, then a submit() that re-spawns: submit() now wakes the manager before spawning, the manager goes back to wait() with a sentinel list that lacks the new worker; that worker dies abruptly in its first task and nothing is woken: future pending, pool never flagged broken"),
+ "C07g": dict(property="C07", needs="short idle timeout + a resize that spawns (grow, or top-up after timeouts): _resize calls _adjust_process_count without the management lock, a fresh worker reaches its idle timeout and announces its exit before the parent registered its pid; the manager pops None, never releases the exit lock, the clean exit is later reported as TerminatedWorkerError EXIT(0)"),
+ "C11g": dict(property="C11", needs="a tracked name containing ':' (temp folder or memmap path): the tracker's line parsing became split(':', 2), the name is cut at its first ':' and the type becomes 'rest:type' -> unknown resource type; nothing is counted, destroyed or swept for that name"),
+ "C12g": dict(property="C12", needs="tracker killed, and the next tracked operation of the process is a process start (no registration in between): get_preparation_data only calls ensure_running when no fd is known and Popen._launch no longer calls getfd(): the child receives the dead fd/pid, starts its own tracker, the tree has two"),
+ "C14g": dict(property="C14", needs="BoundedSemaphore(n) pickled to a loky child, then an over-release by the child's copy: kind and maxvalue became class constants and are no longer carried in the pickle, BoundedSemaphore inherits SEM_VALUE_MAX, the copy is unbounded and n+1 holders are admitted"),
+ "C19g": dict(property="C19", needs="LOKY_MAX_DEPTH=0 (unlimited) in the environment and nesting deeper than 10: the new env-int helper ends with `return value or default`, 0 becomes 10"),
 }
 DETECTED = json.load(open(os.path.join(ROOT, "seeded", "detected.json"))) if os.path.exists(os.path.join(ROOT, "seeded", "detected.json")) else {}
 for name, meta in SEEDS.items():
